@@ -275,7 +275,7 @@ iteration engine, fixed relation in a database - from the C03 induction `backtra
 succeeds the result is well-formed, lives in the target's engine, and its columns are the target's plus the fixed
 relation's. -/
 theorem join_with_backtracking_wellformed (σ : Leaves) (st : Store) (fuel : Nat) (p : PJoin) (t : Rel) (o : Opts)
-    (hpref : o.pref = none) (hbt : o.backtrack = true) (htr : o.transfer = false)
+    (hpref : o.pref = none ∨ o.pref = some p.fixed.engine) (hbt : o.backtrack = true) (htr : o.transfer = false)
     (hkt : t.engine.kind = .iter) (hks : p.fixed.engine.kind = .sql)
     (gF : Good NodeInv.triv σ p.fixed)
     (hfix0 : p.join.resolved = true → p.join.minCols.subset p.fixed.columns = true)
@@ -285,7 +285,7 @@ theorem join_with_backtracking_wellformed (σ : Leaves) (st : Store) (fuel : Nat
     (res.get t).WF ∧ (res.get t).engine = t.engine ∧
       (∀ x, x ∈ (res.get t).columns ↔ x ∈ p.fixed.columns ∨ x ∈ t.columns) := by
   obtain ⟨p', hb, B⟩ := applyOp_pj_backtracked σ st fuel p t o hpref hbt htr hkt hks gF hfix0 hwf htrt hpo hnp res h
-  obtain ⟨f1, _⟩ := pjBeginApply_ok p t none p' _ hfix0 hb
+  obtain ⟨f1, _⟩ := pjBeginApply_ok p t o.pref p' _ hfix0 hb
   refine ⟨B.wf, B.engine, fun x => ?_⟩
   rw [B.cols x, PJoin.mem_appliedColumns, f1]
 
